@@ -169,7 +169,7 @@ impl Property for C11 {
             1u8..25,
             prop::collection::vec(prop_oneof![5 => 1u16..1200, 2 => 1201u16..4000], 1..12),
             prop_oneof![3 => 1i32..1300, 2 => -3000i32..1, 1 => Just(0i32), 2 => 7000i32..7400],
-            0u8..6,
+            0u8..10,
             prop_oneof![4 => Just(true), 1 => Just(false)],
             prop_oneof![9 => Just(false), 1 => Just(true)],
             prop_oneof![2 => Just(100_000i32), 3 => -7300i32..200],
@@ -179,8 +179,8 @@ impl Property for C11 {
     }
     fn cases(&self, tier: Tier) -> u32 {
         match tier {
-            Tier::Quick => 3000,
-            Tier::Thorough => 40_000,
+            Tier::Quick => 100_000,
+            Tier::Thorough => 1_000_000,
         }
     }
     fn rule(&self) -> String {
@@ -193,7 +193,7 @@ impl Property for C11 {
         ]
     }
     fn required_classes(&self, tier: Tier) -> Vec<&'static str> {
-        let mut v = vec!["probe_at_retarget_boundary", "gap_over_20_minutes", "walk_back_ge_2", "timestamp_on_mtp_edge", "timestamp_on_2h_edge", "regtest_accepted", "regtest_rejected", "retarget_clamped"];
+        let mut v = vec!["probe_at_retarget_boundary", "gap_over_20_minutes", "walk_back_ge_2", "timestamp_on_mtp_edge", "timestamp_on_2h_edge", "regtest_accepted", "regtest_rejected", "retarget_clamped", "overflowing_compact_target"];
         if tier == Tier::Thorough {
             v.push("second_retarget_boundary");
         }
@@ -336,11 +336,15 @@ impl Property for C11 {
                 let prev = chain.headers[tip as usize];
                 let at = |h: u32| Hdr { bits: chain.headers[h as usize].bits.to_consensus(), time: chain.headers[h as usize].time };
                 let ts = (prev.time as i64 + *cand_dt as i64).max(1) as u32;
-                let bits = match cand_bits % 6 {
+                let bits = match cand_bits % 10 {
                     0 | 1 | 2 => chain::REGTEST_BITS,
                     3 => 0x207f_fffe,
                     4 => 0x2100_ffff, // above the maximum
-                    _ => 0x1f7f_ffff,
+                    5 => 0x1f7f_ffff,
+                    6 => 0x607f_ffff, // exponent overflows 256 bits (wraps to the regtest maximum in rust-bitcoin)
+                    7 => 0x217f_ffff, // partially overflowing
+                    8 => 0x20ff_ffff, // negative mantissa
+                    _ => 0x407f_ffff,
                 };
                 let mut cand = Header {
                     version: Version::from_consensus(0x2000_0000),
@@ -351,7 +355,7 @@ impl Property for C11 {
                     nonce: 0,
                 };
                 let tgt = pm::from_compact(bits);
-                let minable = tgt >= (num_bigint::BigUint::from(1u8) << 240usize);
+                let minable = cand.target() >= bitcoin::Target::from_compact(CompactTarget::from_consensus(0x1f7f_ffff));
                 if *cand_mined && minable {
                     // find a nonce that meets the *declared* target
                     let t = cand.target();
@@ -384,7 +388,7 @@ impl Property for C11 {
                 let clauses = [
                     !*cand_unknown_parent,
                     ts > mtp && ts as u64 <= now + 7200,
-                    tgt <= pm::pow_limit(net),
+                    pm::declared_target_ok(net, bits),
                     hash_ok,
                     tgt == required,
                 ];
@@ -393,6 +397,9 @@ impl Property for C11 {
                 match crate::sut::guarded(|| validator.validate_header(&cand, Duration::from_secs(now))) {
                     Err(e) => out.fail(format!("regtest validate_header trapped: {e}")),
                     Ok(r) => {
+                        if pm::compact_flags(bits).1 {
+                            out.class("overflowing_compact_target");
+                        }
                         if r.is_ok() != want {
                             out.fail(format!(
                                 "regtest candidate at height {} (dt {}, bits {:#x}, now-prev {}): implementation {:?}, the five clauses [parent, timestamp, max target, work, required target] = {:?}",
